@@ -1899,11 +1899,14 @@ class IMAPClientCommand:
         assert date_exp
         match = _date_re.match(date_exp)
         assert match
-        return date(
-            year=int(match.group("year")),
-            month=_month[match.group("month").lower()],
-            day=int(match.group("day")),
-        )
+        try:
+            return date(
+                year=int(match.group("year")),
+                month=_month[match.group("month").lower()],
+                day=int(match.group("day")),
+            )
+        except ValueError as e:
+            raise BadSyntax(value=f"'{date_exp}' is not a valid date: {e}") from e
 
     #######################################################################
     #
@@ -1925,7 +1928,12 @@ class IMAPClientCommand:
 
         # We need to strip off the "" surrounding the date-time string.
         #
-        return parsedate(date_time[1:-1])
+        try:
+            return parsedate(date_time[1:-1])
+        except (ValueError, OverflowError) as e:
+            raise BadSyntax(
+                value=f"{date_time} is not a valid date-time: {e}"
+            ) from e
 
     #######################################################################
     #
